@@ -1389,8 +1389,11 @@ impl<'a> GeneratorState<'a> {
                 self.generate_strobe_statement(s, code.pos)?;
             }
             Statement::Store(e) => {
-                let param = self.generate_expr(e, code.pos, false, false)?;
-                self.generate_load_store_statement(&param, code.pos, false)?;
+                // The accumulator holds the value to store: the operand is worked out around it
+                self.acc_in_use = true;
+                let param = self.generate_expr(e, code.pos, false, false);
+                self.acc_in_use = false;
+                self.generate_load_store_statement(&param?, code.pos, false)?;
             }
             Statement::Load(e) => {
                 // What the operand reads, this statement reads: none of it may be optimised away
